@@ -46,7 +46,7 @@ def unparse(node: Optional[ast.AST], limit: int = 120) -> str:
 
 class Module:
     def __init__(self, name: str, relpath: str, source: str, is_pkg: bool, normalise: Optional[Set[str]] = None,
-                 role_names: Optional[Set[str]] = None):
+                 role_names: Optional[Set[str]] = None, foreign_attrs: Optional[Set[str]] = None):
         self.name = name
         self.relpath = relpath
         self.source = source
@@ -61,6 +61,11 @@ class Module:
             from .inline import normalise as _normalise
 
             self.inlined += _normalise(self.tree, normalise, role_names or set())
+        if foreign_attrs is not None:
+            from .inline import normalise_new
+            from .known_names import KNOWN
+
+            self.inlined += normalise_new(self.tree, set(KNOWN.get(name, [])), foreign_attrs)
         self.imports: Dict[str, str] = {}
         self.funcs: Dict[str, "Func"] = {}
         self.classes: Dict[str, "Class"] = {}
@@ -191,12 +196,30 @@ class Program:
         # modules whose private statement-level helpers are inlined before the rules run, with the calls that make a
         # helper role-bearing there (see inline.py)
         norm: Dict[str, Set[str]] = {API_MODULE: role_names, "dds.fun_args": {"dds_hash"}}
+        # private names that a module mentions and does not define itself (imports, attributes): a new helper with such a
+        # name may be used from outside its module and is not expanded
+        mentions: Dict[str, Set[str]] = {}
         for name, (rel, src, is_pkg) in sorted(sources.items()):
+            ms: Set[str] = set()
+            try:
+                for n in ast.walk(ast.parse(src)):
+                    if isinstance(n, ast.Attribute) and n.attr.startswith("_"):
+                        ms.add(n.attr)
+                    elif isinstance(n, ast.ImportFrom):
+                        ms.update(a.name for a in n.names if a.name.startswith("_"))
+            except SyntaxError:
+                pass
+            mentions[name] = ms
+        for name, (rel, src, is_pkg) in sorted(sources.items()):
+            foreign: Set[str] = set()
+            for other, ms in mentions.items():
+                if other != name:
+                    foreign |= ms
             try:
                 if name in norm:
-                    self.modules[name] = Module(name, rel, src, is_pkg, normalise=refs.get(name, set()), role_names=norm[name])
+                    self.modules[name] = Module(name, rel, src, is_pkg, normalise=refs.get(name, set()), role_names=norm[name], foreign_attrs=foreign)
                 else:
-                    self.modules[name] = Module(name, rel, src, is_pkg)
+                    self.modules[name] = Module(name, rel, src, is_pkg, foreign_attrs=foreign)
             except SyntaxError as e:
                 raise AnalysisError(f"cannot parse {rel}: {e}")
         for m in self.modules.values():
